@@ -15,7 +15,7 @@ func init() {
 	register(&Property{
 		ID:          "C05",
 		NeedSSA:     true,
-		Decided:     "Structural necessary conditions: (indexer) every implementation of ColumnIndexer.IndexPage records the page unconditionally (observe dominates every exit) and gives minValues and maxValues exactly one entry on every path — an unconditional store whose value appends to the same field, never a conditional append and never a raw spread of a variable-length Value.byteArray(); byte-slice bounds kept in a [][]byte are copies; (wire) the values that reach IndexPage, the chunk statistics, the page statistics, the page locations and the level histograms come from the matching accessor of the page (NumValues, NumNulls, Bounds#0 → min, Bounds#1 → max, NumRows), chunk max is replaced only under Compare(max, existing) > 0 and chunk min only under < 0; (order) every indexer passes order(minValues), order(maxValues) in that order to the shared constructor, and boundaryOrderOf claims an order only when both agree; (reset) the per-row-group statistics state of a column writer is re-established by its reset (shared with C17.reset); (sorting) RowGroup.SortingColumns literals take Descending/NullsFirst from the declared sorting column. (boundary) the merged column index decides ascending/descending across chunks on the two pages adjacent to the boundary (last of the earlier chunk, first of the later one) and with the defining bounds (max/min for ascending, min/max for descending); (detach) the min/max arrays an indexer hands to the shared column-index constructor are freshly allocated, not the fields its Reset truncates. (delegate) every logical type that delegates NewColumnIndexer/NewColumnBuffer/NewDictionary/NewPage delegates all of them to the same source; (boundary, cont.) the later chunk of a boundary comparison is searched for with a scan that skips chunks made of null pages. (nanbounds) every Bounds, MinValue or MaxValue method that orders floating-point values — it or what it calls in the module within two calls compares floats with < or >, or calls a bodyless kernel returning floats — also tests for NaN (v != v or math.IsNaN) in that scope, for plain pages, dictionary pages and the column indexes of in-memory pages alike. (freshelem) in every module function that stores elements of a [][]byte (the lists of min/max byte strings of indexers and column indexes), no stored element is an append built on the storage of an element already in a list, and nothing copies into such an element: the strings are shared with the column indexes handed out earlier, which the writer keeps until the footer. (nilpresence) every function that decides whether format.Statistics min/max bounds have been recorded compares them with nil; none compares their length with zero (the empty byte string is a bound).",
+		Decided:     "Structural necessary conditions: (indexer) every implementation of ColumnIndexer.IndexPage records the page unconditionally (observe dominates every exit) and gives minValues and maxValues exactly one entry on every path — an unconditional store whose value appends to the same field, never a conditional append and never a raw spread of a variable-length Value.byteArray(); byte-slice bounds kept in a [][]byte are copies; (wire) the values that reach IndexPage, the chunk statistics, the page statistics, the page locations and the level histograms come from the matching accessor of the page (NumValues, NumNulls, Bounds#0 → min, Bounds#1 → max, NumRows), chunk max is replaced only under Compare(max, existing) > 0 and chunk min only under < 0; (order) every indexer passes order(minValues), order(maxValues) in that order to the shared constructor, and boundaryOrderOf claims an order only when both agree; (reset) the per-row-group statistics state of a column writer is re-established by its reset (shared with C17.reset); (sorting) RowGroup.SortingColumns literals take Descending/NullsFirst from the declared sorting column. (boundary) the merged column index decides ascending/descending across chunks on the two pages adjacent to the boundary (last of the earlier chunk, first of the later one) and with the defining bounds (max/min for ascending, min/max for descending); (detach) the min/max arrays an indexer hands to the shared column-index constructor are freshly allocated, not the fields its Reset truncates. (delegate) every logical type that delegates NewColumnIndexer/NewColumnBuffer/NewDictionary/NewPage delegates all of them to the same source; (boundary, cont.) the later chunk of a boundary comparison is searched for with a scan that skips chunks made of null pages. (nanbounds) every Bounds, MinValue or MaxValue method that orders floating-point values — it or what it calls in the module within two calls compares floats with < or >, or calls a bodyless kernel returning floats — also tests for NaN (v != v or math.IsNaN) in that scope, for plain pages, dictionary pages and the column indexes of in-memory pages alike. (freshelem) in every module function that stores elements of a [][]byte (the lists of min/max byte strings of indexers and column indexes), no stored element is an append built on the storage of an element already in a list, and nothing copies into such an element: the strings are shared with the column indexes handed out earlier, which the writer keeps until the footer. (nilpresence) every function that decides whether format.Statistics min/max bounds have been recorded compares them with nil; none compares their length with zero (the empty byte string is a bound). (freshindex) no slice field of a format.ColumnIndex literal built by a method is a (re-slice of a) slice that the method's receiver keeps in one of its own fields: the index handed to the writer shares no storage with the indexer that is reset for the next row group. (unwrap) a Type() method of an object that keeps a pointer to a logical type embedding the physical Type never loads that embedded Type through the pointer: it reports the logical type, whose order the statistics are merged and indexed with.",
 		NotDecided:  "that the bounds are true bounds (truncation arithmetic, NaN handling, signed/unsigned order functions, SIMD min/max kernels); that counts are right as numbers; null handling inside the order functions.",
 		Assumptions: []string{"value flow is followed through phis, locals, conversions and arithmetic; accessor identity is resolved through go/types (interface method or static callee), never by text"},
 		Run:         runC05,
@@ -30,6 +30,8 @@ func runC05(c *Ctx) {
 	c05Boundary(c)
 	c05NaNBounds(c)
 	c05NilPresence(c)
+	c05FreshIndex(c)
+	c05Unwrap(c)
 	runFreshElemRule(c, "C05.freshelem", func(fn *ssa.Function) bool { return inModule(fn) }, 3)
 	delegateSiblingRule(c, "C05.delegate", []string{"NewColumnIndexer", "NewColumnBuffer", "NewDictionary", "NewPage"}, 10)
 	// statistics state carried across row groups
